@@ -1024,7 +1024,10 @@ class NetlistEmitter:
             self.connect_src_loc[left] = src_loc
 
     def emit_assign(self, module_idx: int, cd: "_cd.ClockDomain | None", lhs: _ast.Value, lhs_start: int, rhs: _nir.Value, cond: _nir.Net, *, src_loc):
-        # Assign rhs to lhs[lhs_start:lhs_start+len(rhs)]
+        # Assign rhs to lhs[lhs_start:lhs_start+len(rhs)]; bits that fall outside of lhs are dropped
+        # (an element of an assigned-to array can be shorter than the array's unified shape).
+        if lhs_start + len(rhs) > len(lhs):
+            rhs = rhs[:max(len(lhs) - lhs_start, 0)]
         if isinstance(lhs, _ast.Signal):
             sig_drivers = self.drivers.setdefault(lhs, {})
             key = (module_idx, cd)
